@@ -26,6 +26,10 @@ def run(ctx):
                       "guard (a pattern whose match makes it answer `no reference here`) of the shape ^ `$(` any-text+ `)` $, "
                       "where any-text excludes nothing but a newline - in particular not `)`, so nested substitutions are "
                       "covered (otherwise expand_env pastes variable values into the source text of the inner command)")
+    ctx.rule("R13-6", "text that went through the expansion is never tokenized again: in the planner (CommandLine::from_line, "
+                      "split_tokens_by_pipes, Command::from_tokens, tokens_to_redirections) the tokenizers parse_line / "
+                      "line_to_plain_tokens / line_to_cmds are applied to the typed line parameter only, never to the text "
+                      "of a token")
     ctx.rule("R13-4", "an expansion result is written into the token it was computed for: positions recorded while a pass "
                       "scans the token vector are not used after the vector's length changed (E-EDITLIST), so text "
                       "produced under one quote tag cannot land in a neighbouring word with a different tag")
@@ -39,6 +43,7 @@ def run(ctx):
         retag_rule(ctx, crate)
         split_rule(ctx, crate)
         whole_subst_guard_rule(ctx, crate)
+        retokenize_rule(ctx, crate)
 
 
 def passes_in_order(crate):
@@ -209,6 +214,7 @@ def retag_rule(ctx, crate):
     exposed_sinks_rule(ctx, crate, exposure)
 
 
+TOKEN_VEC = "Vec<(std::string::String, std::string::String)>"
 POST_EXPANSION = ["types::CommandLine::from_line", "types::split_tokens_by_pipes", "types::Command::from_tokens",
                   "parsers::parser_line::tokens_to_redirections"]
 
@@ -306,3 +312,26 @@ def whole_subst_guard_rule(ctx, crate):
                                    "the body class of %r excludes %r: `$(echo $(echo $V))` is not recognised as one "
                                    "substitution, $V is expanded into the inner command's source and its value is parsed "
                                    "as syntax there" % (found[1], found[2])))
+
+
+def retokenize_rule(ctx, crate):
+    TOKENIZERS = ("parse_line", "line_to_plain_tokens", "line_to_cmds")
+    n = 0
+    for p in POST_EXPANSION:
+        b = crate.fn(p)
+        if b is None:
+            continue
+        for bb, t, c in b.calls():
+            if last_seg(c) not in TOKENIZERS:
+                continue
+            n += 1
+            arg = b.call_args(bb)[0]
+            e = mir.peel(b.expand_vars(strip_sites(arg)))
+            while e[0] == "call" and e[2] and last_seg(e[1]) in ("deref", "as_str", "as_ref", "borrow", "trim", "clone", "to_string"):
+                e = mir.peel(e[2][0])
+            ok = e[0] == "param" and TOKEN_VEC not in b.locals[e[1]]["ty"]
+            ctx.ob("R13-6", p, "%s is applied to the typed line, not to a token's text" % last_seg(c), ok,
+                   key="R13-6|%s|retokenized|%s" % (p, last_seg(c)), where=b.loc(bb), crate=crate.kind,
+                   detail=None if ok else "the argument is %s: output of a substitution / a value / a file name is split and "
+                   "its `|`, `>`, `&` become operators" % render(e)[:60])
+    ctx.ob("R13-6", "planner", "%d tokenizer call(s) in the planner" % n, n >= 1, key="R13-6|anchor", nontrivial=False)
